@@ -511,3 +511,9 @@ def sections_unit(u: Unit):
                 ok = ok and got is not None and len(got) == 2 and all(from_(got[i], "to_parameters", p.ex.lst[l][i]) for i in range(2))
             u.oblige(p, f"sections.each_part_from_its_own_section[{name}]", bool(ok), {"keys": str(sorted(k))}, SECTIONS_REPLAY)
         u.cover(f"sections.cover[{name}]", ps, lambda p: p.kind == "return")
+
+
+# readout times read from a file: every value of the table, in file order (shared with C02)
+from . import C02 as _C02  # noqa: E402
+unit("C12", "readout.file")(_C02.readout_ctor_file)
+STANDIN = {r"readout\.file": _C02.FILE_REPLAY}
